@@ -8,9 +8,10 @@ Every theorem quantifies over *all* histories (lists of calls of any length) unl
 * "whether cached tables of a composite system have been built, dropped or rebuilt" → (a) `cache_*`
 * "whatever datasets a loss function or algorithm object processed earlier" → (b) `loss_*`, `gen_*`, `fast_*`,
   (c) `algo_*`. After the `fix:` commits the extended weights of the fast loss follow its weights, so the fast loss
-  behaves exactly like the generic one. Still **false on the tree**: the `identity` mode keeps the weights of an earlier
-  call (C13-F1, both losses) and the algorithm object keeps its first projection (D10): the `_partial` theorems give the
-  histories for which re-use equals fresh use, the `_fails` theorems are proved negation witnesses;
+  behaves exactly like the generic one. For every mode `_set_weights_by_mode` handles, re-use now equals fresh use after any
+  history (`*_reuse_refines_fresh`); a mode without a branch keeps the earlier weights (stated explicitly, with a
+  witness). Still **false on the tree**: the algorithm object keeps its first projection (D10) — `_partial` theorem and
+  proved negation witness;
 * "global tolerance changes that are restored" → (d) `atol_*`
 * "no operation changes … its operands" → (e) `projEq_arg_unchanged` (the routine that used to write through views of
   its argument, repaired); the rest of that clause is observed on the implementation by snapshots.
@@ -77,15 +78,17 @@ theorem loss_fields_current (s : Loss A Q W) (c : Cfg A Q W) :
     (configure s c).option = some (c.mode, c.optWeights) := by
   rw [configure_eq]; exact ⟨rfl, rfl, rfl⟩
 
-/-- C13.b: the weights after a call: `identity` (and the accepted-but-unhandled mode) **keep the previous weights**. -/
+/-- C13.b: the weights after a call. Every mode `_set_weights_by_mode` has a branch for installs weights that depend on
+this call only (`identity` resets them to `None`); **a mode without a branch (`Mode.ignored`: the accepted
+`unbiased_inverse_covariance`, or `None`) leaves the weights of the earlier call in place.** -/
 theorem loss_weights_after (s : Loss A Q W) (c : Cfg A Q W) :
     (configure s c).weights = match c.mode with
-      | .identity => s.weights | .custom => c.optWeights | .invCov => some c.dataW | .ignored => s.weights := by
+      | .identity => none | .custom => c.optWeights | .invCov => some c.dataW | .ignored => s.weights := by
   simp only [configure_eq]
   cases c.mode <;> rfl
 
 /-- C13.b `fast_ext_follows_weights`: after every call the extended weights of the fast loss are built from the weights
-the object now holds (they used to be those of the previous call). -/
+the object now holds. -/
 theorem fast_ext_follows_weights (s : Loss A Q W) (c : Cfg A Q W) :
     (configure s c).ext = (configure s c).weights := by
   simp only [configure_eq]
@@ -94,111 +97,74 @@ theorem fast_ext_follows_weights (s : Loss A Q W) (c : Cfg A Q W) :
 theorem fast_obs_eq_gen (s : Loss A Q W) (c : Cfg A Q W) : obsFast (configure s c) = obsGen (configure s c) := by
   simp only [obsFast, obsGen, fast_ext_follows_weights]
 
-/-- histories in which no call installs weights -/
-def NoWeights (h : List (Cfg A Q W)) : Prop := ∀ d ∈ h, d.mode = .identity ∨ d.mode = .ignored
+/-- the modes `_set_weights_by_mode` handles -/
+def Handled (m : Mode) : Prop := m = .identity ∨ m = .custom ∨ m = .invCov
 
-theorem lrun_noWeights (h : List (Cfg A Q W)) (hn : NoWeights h) :
-    ∀ s : Loss A Q W, s.weights = none → s.ext = none →
-      (lrun s h).weights = none ∧ (lrun s h).ext = none := by
-  induction h with
-  | nil => intro s hw he; exact ⟨hw, he⟩
-  | cons d h ih =>
-      intro s hw he
-      have hd := hn d (by simp)
-      have hn' : NoWeights h := fun x hx => hn x (by simp [hx])
-      apply ih hn' (configure s d)
-      · rw [loss_weights_after]; rcases hd with hd | hd <;> simp [hd, hw]
-      · rw [fast_ext_follows_weights, loss_weights_after]; rcases hd with hd | hd <;> simp [hd, hw]
-
-/-- C13.b `gen_reuse_refines_fresh` for a call that installs weights: with mode `custom` or an inverse-covariance
-mode the generic loss reads exactly what a fresh object would read, after **any** history. -/
-theorem gen_reuse_refines_fresh_of_mode (s : Loss A Q W) (c : Cfg A Q W)
-    (hm : c.mode = .custom ∨ c.mode = .invCov) :
+/-- C13.b `gen_reuse_refines_fresh`: for every handled mode (identity, custom, inverse covariance) the generic loss
+reads, after **any** earlier state of the object, exactly what a fresh object reads. -/
+theorem gen_reuse_refines_fresh (s : Loss A Q W) (c : Cfg A Q W) (hm : Handled c.mode) :
     obsGen (configure s c) = obsGen (configure Loss.fresh c) := by
   simp only [obsGen, configure_eq]
-  rcases hm with hm | hm <;> simp [hm]
+  rcases hm with hm | hm | hm <;> simp [hm]
 
-/-- C13.b `gen_reuse_refines_fresh_partial`: the generic loss equals a fresh one for every configuration when the
-history installed no weights. Missing (and false, see `gen_reuse_refines_fresh_fails`): an `identity` call after a
-`custom` / inverse-covariance call. -/
-theorem gen_reuse_refines_fresh_partial (h : List (Cfg A Q W)) (c : Cfg A Q W) (hn : NoWeights h) :
-    obsGen (configure (lrun Loss.fresh h) c) = obsGen (configure Loss.fresh c) := by
-  have := lrun_noWeights h hn Loss.fresh rfl rfl
-  simp only [obsGen, configure_eq, this.1]
-  cases c.mode <;> simp [Loss.fresh]
-
-/-- C13.b `fast_reuse_refines_fresh` for a call that installs weights (custom / inverse covariance): the fast loss reads
-what a fresh object would read, after **any** history. -/
-theorem fast_reuse_refines_fresh_of_mode (s : Loss A Q W) (c : Cfg A Q W)
-    (hm : c.mode = .custom ∨ c.mode = .invCov) :
+/-- C13.b `fast_reuse_refines_fresh`: the same for the fast loss. -/
+theorem fast_reuse_refines_fresh (s : Loss A Q W) (c : Cfg A Q W) (hm : Handled c.mode) :
     obsFast (configure s c) = obsFast (configure Loss.fresh c) := by
   rw [fast_obs_eq_gen, fast_obs_eq_gen]
-  exact gen_reuse_refines_fresh_of_mode s c hm
+  exact gen_reuse_refines_fresh s c hm
 
-/-- C13.b `fast_reuse_refines_fresh_partial`: … and for every configuration when the history installed no weights.
-Missing (and false, see `fast_reuse_refines_fresh_fails`): an `identity` call after a weight-installing call (C13-F1). -/
-theorem fast_reuse_refines_fresh_partial (h : List (Cfg A Q W)) (c : Cfg A Q W) (hn : NoWeights h) :
-    obsFast (configure (lrun Loss.fresh h) c) = obsFast (configure Loss.fresh c) := by
-  rw [fast_obs_eq_gen, fast_obs_eq_gen]
-  exact gen_reuse_refines_fresh_partial h c hn
+/-- C13.b `reuse_refines_fresh` over whole histories: after any list of earlier datasets (of any modes, handled or not),
+the next dataset with a handled mode is read as by a fresh object — by both losses. -/
+theorem reuse_refines_fresh_history (h : List (Cfg A Q W)) (c : Cfg A Q W) (hm : Handled c.mode) :
+    obsGen (configure (lrun Loss.fresh h) c) = obsGen (configure Loss.fresh c) ∧
+    obsFast (configure (lrun Loss.fresh h) c) = obsFast (configure Loss.fresh c) :=
+  ⟨gen_reuse_refines_fresh _ c hm, fast_reuse_refines_fresh _ c hm⟩
 
-/-- C13.b: a fresh fast loss values its first dataset with the weights of that dataset's mode. -/
-theorem fast_first_dataset_weights (c : Cfg A Q W) :
-    obsFast (configure Loss.fresh c) = (some c.matA, some c.q,
+/-- C13.b: what a dataset is valued with: the weights of its own mode (none for identity), whatever came before. -/
+theorem fast_uses_current_dataset_weights (s : Loss A Q W) (c : Cfg A Q W) (hm : Handled c.mode) :
+    obsFast (configure s c) = (some c.matA, some c.q,
       match c.mode with | .custom => c.optWeights | .invCov => some c.dataW | _ => none) := by
-  simp only [obsFast, configure_eq, Loss.fresh]
-  cases c.mode <;> rfl
+  simp only [obsFast, configure_eq]
+  rcases hm with hm | hm | hm <;> simp [hm]
 
-/-- C13.b: an inverse-covariance dataset is valued with the weights of its **own** data, whatever came before. -/
-theorem fast_uses_current_dataset_weights (s : Loss A Q W) (c : Cfg A Q W) (h : c.mode = .invCov) :
-    obsFast (configure s c) = (some c.matA, some c.q, some c.dataW) := by
-  simp [obsFast, configure_eq, h]
+/-- C13.b `unhandled_mode_keeps_weights` (stated explicitly): with a mode that has no branch, both losses read the
+weights the object held before the call — re-use equals fresh use only if there were none. -/
+theorem unhandled_mode_keeps_weights (s : Loss A Q W) (c : Cfg A Q W) (hm : c.mode = .ignored) :
+    obsGen (configure s c) = (some c.matA, some c.q, s.weights) ∧
+    obsFast (configure s c) = (some c.matA, some c.q, s.weights) := by
+  simp [obsGen, obsFast, configure_eq, hm]
 
 end loss
 
-/-- the two-dataset history of the negation witnesses (concrete, integers): one schedule with two outcomes, one
-variable, `p(var) = (var, var)`, data `q = (0, 1)`; first dataset with custom weights `diag(1,2)`, then `identity`. -/
+/-- a two-dataset history (concrete, integers): one schedule with two outcomes, one variable, `p(var) = (var, var)`, data
+`q = (0, 1)`; first dataset with custom weights `diag(1,2)`, then `identity` -/
 def witnessCustom : Cfg (List (List Int) × List Int) (List Int) (List (List (List Int))) :=
   { mode := .custom, optWeights := some [[[1, 0], [0, 2]]], matA := ([[1], [1]], [0, 0]), q := [0, 1],
     dataW := [], gradReq := true }
 def witnessIdentity : Cfg (List (List Int) × List Int) (List Int) (List (List (List Int))) :=
   { witnessCustom with mode := .identity, optWeights := none }
+def witnessUnhandled : Cfg (List (List Int) × List Int) (List Int) (List (List (List Int))) :=
+  { witnessCustom with mode := .ignored, optWeights := none }
 
-/-- C13.b negation witness (concrete, C13-F1): `reuse_refines_fresh` is false for the fast loss — the second dataset
-(mode `identity`, which is `pass`) is valued 9 by the re-used object (the custom weights `diag(1,2)` of the first dataset
-stay, and the extended weights follow them) and 5 by a fresh one. -/
-theorem fast_reuse_refines_fresh_fails :
-    ¬ ∀ (h : List (Cfg (List (List Int) × List Int) (List Int) (List (List (List Int)))))
-        (c : Cfg (List (List Int) × List Int) (List Int) (List (List (List Int)))) (var : List Int),
-        valueFast 2 (configure (lrun Loss.fresh h) c) var = valueFast 2 (configure Loss.fresh c) var := by
-  intro hall
-  have := hall [witnessCustom] witnessIdentity [-1]
-  revert this
-  decide
+/-- non-vacuity / the former counter-example: the identity dataset after the custom one is valued 5 by the re-used
+objects, as by fresh ones (it used to be 9, with the custom weights of the first dataset) -/
+example : valueFast 2 (configure (lrun Loss.fresh [witnessCustom]) witnessIdentity) [-1] = some 5
+    ∧ valueGen 2 (configure (lrun Loss.fresh [witnessCustom]) witnessIdentity) [-1] = some 5
+    ∧ valueFast 2 (configure Loss.fresh witnessIdentity) [-1] = some 5
+    ∧ valueFast 2 (configure Loss.fresh witnessCustom) [-1] = some 9
+    ∧ valueGen 2 (configure Loss.fresh witnessCustom) [-1] = some 9 := by decide
 
-/-- C13.b negation witness (concrete): the same history for the generic loss (`identity` is `pass`, the custom weights
-of the previous dataset stay). -/
-theorem gen_reuse_refines_fresh_fails :
+/-- C13.b negation witness (concrete) for the unhandled mode only: `reuse_refines_fresh` without the `Handled` hypothesis
+is false — a dataset configured with a mode that has no branch is valued 9 after the custom dataset and 5 by a fresh
+object. -/
+theorem reuse_refines_fresh_unhandled_fails :
     ¬ ∀ (h : List (Cfg (List (List Int) × List Int) (List Int) (List (List (List Int)))))
         (c : Cfg (List (List Int) × List Int) (List Int) (List (List (List Int)))) (var : List Int),
         valueGen 2 (configure (lrun Loss.fresh h) c) var = valueGen 2 (configure Loss.fresh c) var := by
   intro hall
-  have := hall [witnessCustom] witnessIdentity [-1]
+  have := hall [witnessCustom] witnessUnhandled [-1]
   revert this
   decide
-
-/-- what the two objects compute on the witness -/
-example : valueFast 2 (configure (lrun Loss.fresh [witnessCustom]) witnessIdentity) [-1] = some 9
-    ∧ valueFast 2 (configure Loss.fresh witnessIdentity) [-1] = some 5
-    ∧ valueFast 2 (configure Loss.fresh witnessCustom) [-1] = some 9      -- custom weights applied on first use
-    ∧ valueGen 2 (configure Loss.fresh witnessCustom) [-1] = some 9 := by decide
-
-/-- non-vacuity of the `_partial` hypotheses: a two-dataset history that installs no weights -/
-example : NoWeights [witnessIdentity, witnessIdentity] := by
-  intro d hd
-  simp only [List.mem_cons, List.not_mem_nil, or_false, or_self] at hd
-  subst hd
-  exact Or.inl rfl
 
 /-! ## (c) algorithm object -/
 
